@@ -289,6 +289,8 @@ class C08(Prop):
                  "errCloneCloneSrc": ("src/simulate.c", "*Cannot clone from a clone!"),
                  "errChainSrc": ("src/simulate.c", "*Inherit chain too deep: > "),
                  "errNoInheritSrc": ("src/simulate.c", "*Inherited file '/"),
+                 "errIsa1Src": ("src/simulate.c", "*Illegal to call remove_action() from a verb returning zero."),
+                 "errIsa2Src": ("src/simulate.c", "*Illegal to move or destruct an object defining actions from a verb function which returns zero."),
                  "errEfunCbSrc": ("lib/lpc/array.c", "*Object destructed during efun callback."),
                  "errInitDestedSrc": ("src/simulate.c", "*An object was destructed at call of "),
                  "errItemDestedSrc": ("src/simulate.c", "*The object to be moved was destructed at call of "),
@@ -398,6 +400,16 @@ class C08(Prop):
         mk("catch-variants", """script o3 init ct,err;aa,o3,va\nscript o3 act ct,mv,o4,o4;ct,de,o3\nscript o2 hbeat ct,err;de,o4\nscript o5 create ct,err;ct,mv,o5,o5
             t ld,b0\nt cl,b0\nt cl,b0\nt ec,o4\nt mv,o4,o2\nt mv,o3,o2\nsnap\nt cmd,o4,va\nsnap\nt hbe,o2\ntick\nsnap\nprobe\ntick
             t ct,cl,b0\nt ct,ld,bad\nt ct,mvs,o2,nx\nt ct,mv,o2,o2\nt ct,nop\nt ct,err\nt de,o2\n""" + tail)
+        # actions returning 0: user_parser goes on with the next sentence - unless the action removed sentences (error)
+        # or destructed the command giver (its sentence list is freed)
+        mk("action-destructs-the-command-giver-and-returns-0", """script o4 act de,o3;ret0\nt ld,b0\nt cl,b0\nt cl,b0\nt cl,b0\nt cl,b0
+            t mv,o3,o2\nt mv,o4,o2\nt mv,o5,o2\nt mv,o6,o2\nt ec,o6\nt aa,o5,vb\nt aa,o5,vc\nt aa,o4,vb\nt de,o6\nt ec,o3\nt aa,o5,va\nt aa,o4,va
+            snap\nt cmd,o3,va\n""" + tail)
+        mk("actions-returning-0", """script o4 act ret0\nscript o5 act nop\nscript o4 act mv,o4,o6;ret0\nscript o4 act ra,o4,va;ret0\nscript o5 act ra,o5,va
+            script o5 act de,o4;ret0\nscript o5 act ret0\nscript o5 act cmd,o3,vb;ret0\nscript o4 act ret0
+            t ld,b0\nt cl,b0\nt cl,b0\nt cl,b0\nt ld,b1\nt mv,o3,o2\nt mv,o4,o2\nt mv,o5,o2\nt ec,o3\nt aa,o5,va\nt aa,o4,va\nsnap
+            t cmd,o3,va\nsnap\nt cmd,o3,va\nsnap\nt mv,o4,o2\nt aa,o4,va\nt cmd,o3,va\nsnap\nt aa,o4,va\nt cmd,o3,va\nsnap\nt cmd,o3,va\nt aa,o4,vb\nt cmd,o3,va\nt cmd,o3,vb
+            t ra,o4,vb\nt ra,o5,va\nt ra,o9,va\nt dc,o3\nt ra,o3,va\n""" + tail)
         # load_object's inherit detour: the inherited program is loaded first, its create() re-enters the load
         mk("inherit-base-create-loads-child", "script o2 create ld,i0\nt ld,i0\nsnap\nprobe\nt fo,i0\nt ld,i0\nt de,o3\nsnap\nt fo,i0\nt fo,b0\nt ld,i0\n" + tail)
         mk("inherit-base-create-clones-child", "script o2 create cl,i1\nt ld,i1\nsnap\nprobe\nt fo,i1\nt cl,i1\nt de,o3\nt fo,i1#1\nt ld,i1\n" + tail)
@@ -418,9 +430,9 @@ class C08(Prop):
         return B
 
     OPS = [("ld", 9), ("cl", 14), ("mv", 28), ("de", 9), ("ec", 14), ("dc", 2), ("ln", 4), ("fo", 5), ("fl", 3),
-           ("kp", 3), ("rd", 2), ("err", 1), ("aa", 9), ("cmd", 8), ("mvs", 10), ("fis", 3), ("pr", 6), ("hbe", 7), ("hbd", 2), ("obf", 3), ("ct", 4)]
+           ("kp", 3), ("rd", 2), ("err", 1), ("aa", 9), ("cmd", 8), ("mvs", 10), ("fis", 3), ("pr", 6), ("hbe", 7), ("hbd", 2), ("obf", 3), ("ct", 4), ("ra", 2)]
     HOPS = [("ld", 5), ("cl", 8), ("mv", 24), ("de", 14), ("ec", 5), ("dc", 1), ("ln", 2), ("fo", 2), ("fl", 1),
-            ("kp", 2), ("rd", 2), ("err", 2), ("mvarg", 6), ("nop", 2), ("aa", 10), ("cmd", 3), ("mvs", 6), ("fis", 2), ("pr", 2), ("hbe", 2), ("hbd", 2), ("obf", 1), ("ct", 6)]
+            ("kp", 2), ("rd", 2), ("err", 2), ("mvarg", 6), ("nop", 2), ("aa", 10), ("cmd", 3), ("mvs", 6), ("fis", 2), ("pr", 2), ("hbe", 2), ("hbd", 2), ("obf", 1), ("ct", 6), ("ra", 3), ("ret0", 5)]
 
     def gen_op(self, rng, st, table, self_id=None):
         k = rng.weighted(table)
@@ -469,6 +481,8 @@ class C08(Prop):
             return "fis,%s" % rng.weighted([("b%d" % rng.below(st["nbp"]), 6), ("b%d" % (st["nbp"] + rng.below(40)), 6), ("nx", 1)])
         if k in ("de", "ec", "dc", "kp", "hbe", "hbd"):
             return "%s,%s" % (k, oid())
+        if k == "ra":
+            return "ra,%s,%s" % (oid(), rng.choice(["va", "vb", "vc"]))
         if k == "aa":
             return "aa,%s,%s" % (oid(), rng.choice(["va", "vb", "vc"]))
         if k == "cmd":
@@ -523,7 +537,32 @@ class C08(Prop):
                     target = rng.range(2, max(2, st["est"] + 1))
                 ops = [self.gen_op(rng, st, self.HOPS, target) for _ in range(rng.range(1, 3))]
                 body.append("script o%d %s %s" % (target, hk, ";".join(ops)))
-            if rng.chance(1, 10) and st["top"] >= 3:
+            if rng.chance(1, 9) and st["top"] >= 4:
+                # several objects offer the same verb to one command giver; their action functions return 0 ("not my
+                # verb") after destructing / moving the command giver, themselves or the next one, or removing actions
+                x = rng.range(2, st["top"] + 1)
+                ys = [rng.range(2, st["top"] + 1) for _ in range(rng.range(2, 4))]
+                v = rng.choice(["va", "vb"])
+                env = rng.range(2, st["top"] + 1)
+                body += ["t mv,o%d,o%d" % (z, env) for z in [x] + ys]
+                body.append("t ec,o%d" % x)
+                st["lastec"] = x
+                body += ["t aa,o%d,%s" % (y, v) for y in ys]
+                ES = st.setdefault("extra_scripts", [])
+                for y in ys:
+                    if rng.chance(3, 4):
+                        what = rng.weighted([("ret0", 6), ("de,o%d;ret0" % x, 5), ("de,o%d;ret0" % y, 3), ("de,o%d;ret0" % rng.choice(ys), 3),
+                                             ("mv,o%d,o%d;ret0" % (x, rng.range(2, st["top"] + 1)), 3), ("ra,o%d,%s;ret0" % (y, v), 3),
+                                             ("ra,o%d,%s" % (rng.choice(ys), v), 2), ("mv,o%d,o%d;ret0" % (y, rng.range(2, st["top"] + 1)), 2),
+                                             ("aa,o%d,%s;ret0" % (y, v), 1), ("cmd,o%d,%s;ret0" % (x, v), 1), ("ct,de,o%d;ret0" % x, 1), ("err", 1)])
+                        ES.append("script o%d act %s" % (y, what))
+                if rng.chance(1, 2):
+                    # a non-empty sentence free list (destruct_object frees the sentences of the object)
+                    body += ["t de,o%d" % rng.choice(ys)]
+                body.append("t cmd,o%d,%s" % (x, v))
+                if rng.chance(1, 2):
+                    body.append("t cmd,o%d,%s" % (x, v))
+            elif rng.chance(1, 10) and st["top"] >= 3:
                 # a command that (mostly) reaches an action: enable x, let y offer a verb, x issues it (maybe later)
                 x, y = rng.range(2, st["top"] + 1), rng.range(2, st["top"] + 1)
                 v = rng.choice(["va", "vb", "vc"])
@@ -797,6 +836,8 @@ class C08(Prop):
             ("destruct-refused", born + ["ctb o1", "deb o3", "caught *Only this_object() can be destructed from move_or_destruct.", "r ct o1 1"]),
             ("frame-mismatch", born + ["r ct o1 0"]),
             ("frame-mismatch", born + ["ctb o1", "deb o3", "r ct o1 0"]),
+            ("ok", born + ["r ra o3 va 1", "r ra o3 va 0", "r ra o9 va !gone"]),
+            ("destructed-visible", dead3 + ["r ra o3 va 0"]),
             ("walker", ["W ot-destructed o2"]),
             ("crash", ["crash signal 11"]),
             ("memory-error", ["sanitizer ERROR: AddressSanitizer: heap-use-after-free"]),
